@@ -17,6 +17,7 @@
  Rz sentinel      : fields defaulted when None are None when absent from the input (loader .get without another default).
  R8 export guards : an optional export entry is conditioned only on the value it exports.
  R9 library / raw export: design functions do not write the equipment library; to_json exports loaded values, not derived state.
+ R10 asdict keys    : FiberParams.asdict exports under a key the attribute loaded from that key; amplifier field/key agreement (shared with C04).
 """
 import ast
 
@@ -411,8 +412,43 @@ def r9_library_and_raw_export(ctx):
     ctx.need('R9.raw-export', 5)
 
 
+
+def r10_asdict_keys(ctx):
+    """R10: the spans that auto-design creates in memory (split_fiber builds them from fiber.params.asdict()) are the spans a reload
+    of the saved design gives: (a) what FiberParams.asdict puts under a key of a nested dict is the attribute that the constructor
+    filled from that same key; (b) the amplifier parameter classes store every configuration entry under its own name (rule shared
+    with C04)"""
+    repo = ctx.repo
+    fp = repo.cls('FiberParams', 'gnpy.core.parameters')
+    init, asd = fp.methods.get('__init__'), fp.methods.get('asdict')
+    if init is None or asd is None:
+        raise AnchorMissing('FiberParams.__init__ / asdict')
+    loaded = {}
+    for n in ast.walk(init.node):
+        if isinstance(n, ast.Assign) and isinstance(n.targets[0], ast.Attribute) and isinstance(n.targets[0].value, ast.Name) and \
+                n.targets[0].value.id == 'self':
+            keys = {x.slice.value for x in ast.walk(n.value) if isinstance(x, ast.Subscript) and isinstance(x.slice, ast.Constant) and
+                    isinstance(x.slice.value, str)}
+            if keys:
+                loaded.setdefault(n.targets[0].attr, set()).update(keys)
+    k_ = 0
+    for d in [x for x in ast.walk(asd.node) if isinstance(x, ast.Dict)]:
+        for kk, v in zip(d.keys, d.values):
+            if isinstance(kk, ast.Constant) and isinstance(v, ast.Attribute) and isinstance(v.value, ast.Name) and v.value.id == 'self' and \
+                    v.attr in loaded:
+                k_ += 1
+                ctx.check('R10.asdict-keys', f'{site(asd, v)} {kk.value}', kk.value in loaded[v.attr], key(asd, f'asdict|{kk.value}'),
+                          f"asdict exports self.{v.attr} under '{kk.value}', but the constructor fills it from {sorted(loaded[v.attr])}: a span "
+                          'created in memory from these parameters differs from the span a reload of the saved design creates',
+                          ast.unparse(v))
+    from .c04 import rk_field_key as _rk
+    from .common import proxy
+    _rk(proxy(ctx, 'R10'))
+    ctx.need('R10.asdict-keys', 1)
+
+
 from ..presence import rule_for as _presence_rule
 
 RULES_PRESENCE = ('Rp.presence', _presence_rule('C17', 'a value of exactly 0 would be exported as missing and re-designed on reload'))
 
-RULES = [('R5.handoff', r5_handoff), ('R1.bracket', r1_bracket), ('R2.completeness', r2_completeness), ('R3.fix-point', r3_fixpoints), ('R4.keys', r4_keys), RULES_PRESENCE, ('R6.padding-cache', r6_padding_cache), ('Rx.export-keys', rx_export_keys), ('R7.design-inputs', r7_design_inputs), ('Rz.sentinel', rs_sentinel), ('R8.export-guards', r8_export_guards), ('R9.library-and-raw-export', r9_library_and_raw_export)]
+RULES = [('R5.handoff', r5_handoff), ('R1.bracket', r1_bracket), ('R2.completeness', r2_completeness), ('R3.fix-point', r3_fixpoints), ('R4.keys', r4_keys), RULES_PRESENCE, ('R6.padding-cache', r6_padding_cache), ('Rx.export-keys', rx_export_keys), ('R7.design-inputs', r7_design_inputs), ('Rz.sentinel', rs_sentinel), ('R8.export-guards', r8_export_guards), ('R9.library-and-raw-export', r9_library_and_raw_export), ('R10.asdict-keys', r10_asdict_keys)]
